@@ -308,6 +308,16 @@ class Verdict:
                 if extra_key in v:
                     doc[extra_key] = v[extra_key]
             json.dump(doc, open(path, "w"), indent=1)
+            # replaying the minimised file in a fresh process must reproduce the same violation class
+            if not doc.get("engine") and doc.get("history") is not None and config.split("+")[0] in CONFIGS:
+                try:
+                    b = os.path.join(ctx.build_root, config.split("+")[0], CONFIGS[config.split("+")[0]].get("target", ""), "target" if False else "")
+                    binary = build(ctx, config.split("+")[0])
+                    code, rrep, _ = run_sim(ctx, binary, ["replay", path] + (["--alloc-hard-fail"] if config.endswith("+allocfail") else []), allow_abort=True)
+                    doc["replay_verified"] = bool(code == 1 and rrep and rrep.get("violation") and rrep["violation"]["class"] == v["class"]) or (code not in (0, 1))
+                except HarnessError:
+                    doc["replay_verified"] = False
+                json.dump(doc, open(path, "w"), indent=1)
             new.append((path, v))
         # evidence
         ev = self.evidence(len(new))
@@ -315,6 +325,12 @@ class Verdict:
         for path, v in new:
             print("VIOLATION property=%s replay=%s" % (self.pid, path), flush=True)
             print("  class=%s detail=%s" % (v["class"], v["detail"][:400]), flush=True)
+            try:
+                rv = json.load(open(path)).get("replay_verified")
+                if rv is not None:
+                    print("  replay of the minimised history in a fresh process reproduces it: %s" % rv, flush=True)
+            except Exception:
+                pass
         return 1 if new else 0
 
     def evidence(self, nviol):
@@ -466,6 +482,14 @@ def check_C12(ctx, tier, seed):
         vd.add("default", rep)
     if tier != "quick":
         strace_eintr(ctx, vd, b, scratch)
+        # streams beyond the generator's limits through the stream helper itself (generated, no memory)
+        jobs = [["bigreader", "--variant", v, "--pattern", pat, "--seed", seed + v, "--total", total]
+                for v, pat, total in ((1, "a40e", 4224281216), (0, "41", 4224281217), (4, "0102", (1 << 32) + 12345), (3, "a40e5566", 4224281215))]
+        t = time.time()
+        with ThreadPoolExecutor(max_workers=4) as ex:
+            for code_rep in ex.map(lambda a: run_sim(ctx, b, a), jobs):
+                vd.add("default", code_rep[1])
+        ctx.log("multi-GiB streams through hash_stream_for: %d in %.1fs" % (len(jobs), time.time() - t))
     vd.extra["components_real"] = ["tlsh::hash_stream / hash_stream_for::<T> (all five variants), hash_file / hash_file_for on real files (real kernel read path), tlsh::hash_buf_for (oracle side), Generator::update/finalize"]
     vd.extra["components_stub"] = ["the reader (scripted SimReader: deliveries, EINTR, hard errors, early EOF, scribbling)", "thorough: strace injects EINTR into counted real read(2) calls of hash_file"]
     vd.assumptions = ["the oracle is the crate's own one-shot hash_buf_for on the delivered bytes (as the property states)",
@@ -942,7 +966,7 @@ def replay(ctx, pid, path):
                            stdout=subprocess.PIPE, stderr=subprocess.STDOUT, text=True)
         return report(p.returncode != 0, "build exit %d" % p.returncode)
     if engine in ("bigstream",):
-        b = build(ctx, cfg)
+        b = build(ctx, cfg if cfg in CONFIGS else "default")
         code, rep, err = run_sim(ctx, b, doc["argv"])
         return report(code == 1, json.dumps((rep or {}).get("violations", [{}])[:1])[:500])
     if engine in ("hashfile", "strace"):
